@@ -126,11 +126,9 @@ func init() {
 		},
 		"(*regexp.Regexp).ReplaceAllString": func(e *Engine, a []Value) Value {
 			re := a[0].(nativeRegexp)
-			src, repl := a[1].(Str), a[2].(Str)
-			if !src.isC() || !repl.isC() {
-				panic(unsupported("symbolic regexp subject"))
-			}
-			return Str{S: re.re.ReplaceAllString(src.S, repl.S)}
+			src, _ := e.concStrFork(a[1], "")
+			repl, _ := e.concStrFork(a[2], "")
+			return Str{S: re.re.ReplaceAllString(src, repl)}
 		},
 		"(*sync.Once).Do": func(e *Engine, a []Value) Value {
 			p := a[0].(*Value)
